@@ -89,14 +89,13 @@ Qed.
 Theorem item_tables_ok st it base t :
   In t (item_tables st (List.length base) it) -> table_ok (base ++ item_cons st it) t.
 Proof.
-  induction it as [l1 l2 cname f sym|l cname f|g it IH| |l entry|f|cprefix f]; cbn [item_tables item_cons].
+  induction it as [l1 l2 cname f sym|l cname f|g it IH| |l entry|cprefix f]; cbn [item_tables item_cons].
   - destruct (get_list st l1) as [|s0 l0]; [intros []|]. intros [<-|[]]. unfold table_ok. cbn [t_rows].
     apply number_rows_ok.
   - intros [<-|[]]. unfold table_ok. cbn [t_rows].
     pose proof (number_rows_ok [map Some (gen_singles st (get_list st l) cname f)] base) as H.
     rewrite flatten_opts_single in H. exact H.
   - destruct (guard_true st g); [exact IH|intros []].
-  - intros [].
   - intros [].
   - intros [].
   - destruct (f_points st) as [|s0 l0] eqn:E; [intros []|]. intros Hin. apply in_map_iff in Hin as [k [<- Hk]].
@@ -541,7 +540,7 @@ Proof.
   unfold plan_names_ok. intros H. apply orb_true_iff in H as [H|H].
   - apply andb_true_iff in H as [H1 H2]. rewrite run_plan_run_items. apply run_items_names_nodup; [exact H1|].
     cbn. apply nodupb_NoDup. exact H2.
-  - destruct plan as [|[| | | | | |cprefix f] [|]]; try discriminate.
+  - destruct plan as [|[| | | | |cprefix f] [|]]; try discriminate.
     unfold run_plan. cbn [fold_left]. rewrite run_item_eq. cbn [g_tables g_state g_cons app item_tables].
     destruct (f_points st); [constructor|]. rewrite map_map. cbn [t_name block_table].
     apply NoDup_map_inj_local; [|apply seq_NoDup].
@@ -565,19 +564,16 @@ Proof.
   rewrite (tables_dict_nodup _ Hnd). split; [reflexivity|]. apply table_get_in; assumption.
 Qed.
 
-(** * constraints outside the tables: F-C17b *)
-Fixpoint cross_free (it : plan_item) : bool :=
-  match it with CrossEq _ => false | Guarded _ it' => cross_free it' | _ => true end.
-
-(** every constraint contributed by an item other than LinearOperator's cross loop carries a name
-    and sits in a table written by that item *)
+(** * every class constraint is named and tabulated *)
+(** every constraint contributed by a plan item carries a name and sits in a table written by that item
+    (before /repo 763e32e LinearOperator's adjoint equalities were the exception: F-C17b) *)
 Theorem item_src_tabulated st off it c :
-  cross_free it = true -> item_src st it c ->
+  item_src st it c ->
   (exists nm, c_name c = Some nm) /\
   exists t i j p, In t (item_tables st off it) /\ table_cell t i j = Some (Some (p, c)).
 Proof.
-  induction it as [l1 l2 cname f sym|l cname f|g it IH| |l entry|f|cprefix f]; cbn [cross_free item_src];
-    intros Hc Hsrc; try discriminate; try contradiction.
+  induction it as [l1 l2 cname f sym|l cname f|g it IH| |l entry|cprefix f]; cbn [item_src];
+    intros Hsrc; try contradiction.
   - destruct Hsrc as (i & j & si & sj & Hi & Hj & Hsel & ->). split; [eexists; reflexivity|].
     assert (Hne : get_list st l1 <> []) by (intros E; rewrite E in Hi; destruct i; discriminate).
     destruct (pairs_table_exists st off l1 l2 cname f sym Hne) as [t Ht].
@@ -600,18 +596,31 @@ Proof.
     intros E. rewrite E in Hi. destruct i; discriminate.
 Qed.
 
+(** After set_class_constraints(), for every plan: every class constraint has a name and is the object
+    held by some cell of some table of tables_of_constraints. *)
+Theorem run_plan_named_tabulated plan st c :
+  In c (g_cons (run_plan plan st)) ->
+  (exists nm, c_name c = Some nm) /\
+  exists t i j p, In t (g_tables (run_plan plan st)) /\ table_cell t i j = Some (Some (p, c)) /\
+                  nth_error (g_cons (run_plan plan st)) p = Some c.
+Proof.
+  intros Hc. apply run_plan_items_spec in Hc as (pre & it & post & Heq & Hsrc).
+  destruct (item_src_tabulated _ (List.length (g_cons (run_plan pre st))) it c Hsrc)
+    as [Hnm (t & i & j & p & Hin & Hcell)].
+  split; [exact Hnm|]. destruct (plan_item_tables plan st pre it post t Heq Hin) as [Hg Hok].
+  exists t, i, j, p. split; [exact Hg|]. split; [exact Hcell|]. exact (Hok i j p c Hcell).
+Qed.
+
+(** regression for the repaired F-C17b: one sample of a LinearOperator, one of its transpose: the adjoint
+    equality is named and sits in the 1 x 1 table "adjoint" *)
 Definition lin_witness : fstate :=
   mkF "Function_0" (fun _ => 1%Q) (fun _ => false)
       [mkSample [(0, 1%Q)] [(1, 1%Q)] [(KF 0, 1%Q)] None 0 1 2 []] []
       [mkSample [(2, 1%Q)] [(3, 1%Q)] [(KF 1, 1%Q)] None 3 4 5 []] None 4 2 6 0 (fun _ => 0%Q).
 
-(** F-C17b: LinearOperator's X^T V = Y^T U equalities have no name and sit in no table. *)
-Theorem linear_cross_untabulated_refuted :
-  exists st c, In c (g_cons (run_plan plan_LinearOperator st)) /\ c_name c = None /\
-               g_tables (run_plan plan_LinearOperator st) = [].
-Proof.
-  exists lin_witness. eexists. split; [|split].
-  - vm_compute. left. reflexivity.
-  - reflexivity.
-  - vm_compute. reflexivity.
-Qed.
+Lemma linear_adjoint_regression :
+  map c_name (g_cons (run_plan plan_LinearOperator lin_witness)) = [Some "IC_Function_0_adjoint(Point_0, Point_0)"%string] /\
+  map t_name (g_tables (run_plan plan_LinearOperator lin_witness)) = ["adjoint"%string] /\
+  map (duals_table (fun p => inject_Z (Z.of_nat p + 7))) (g_tables (run_plan plan_LinearOperator lin_witness))
+  = [[[7%Q]]].
+Proof. repeat split; vm_compute; reflexivity. Qed.
